@@ -15,29 +15,93 @@ Definition ocallouts (proc : text) : plugin_result :=
 (* a shipped plugin whose model is not plugged in yet: the harness skips such cases and counts them *)
 Definition unsupported : plugin_result := PRetT (L "@unsupported").
 
-(* srcparsers.osrc.osrc.parseSRCToJson: routes to srcparsers.o<xx>00 (only oe500 exists) or bsrc (absent) *)
-Definition osrc (hw : text -> list text -> plugin_result) (refcode : text) (words : list text) : plugin_result :=
-  if text_eqb (firstn 2 refcode) (L "BC") then PRetJ JNull
-  else if text_eqb (map lower_c (firstn 2 (skipn 4 refcode))) (L "e5") then hw refcode words
-  else PRetJ JNull.
+(* srcparsers.osrc.osrc.parseSRCToJson: routes BMC SRCs to srcparsers.o<xx>00 (xx = the component named by characters 4..5 of the
+   reference code, lower case), or to the hostboot parser srcparsers.bsrc for BC reference codes.  A missing module gives JSON
+   null (no SRC details); any other import failure or a failure of the component parser escapes to SRC.parse, which drops it. *)
+Definition osrc_target (refcode : text) : text :=
+  if text_eqb (firstn 2 refcode) (L "BC") then L "srcparsers.bsrc.bsrc"
+  else let n := L "o" ++ map lower_c (firstn 2 (skipn 4 refcode)) ++ L "00" in L "srcparsers." ++ n ++ L "." ++ n.
 
-Definition shipped_env (ud_oe500 ud_m2c00 : N -> N -> bytes -> plugin_result)
-                       (src_oe500 : text -> list text -> plugin_result) : env :=
+Definition osrc (lookup : text -> import_outcome (text -> list text -> plugin_result)) (refcode : text) (words : list text)
+  : plugin_result :=
+  match lookup (osrc_target refcode) with
+  | IFound f => f refcode words
+  | INotFound => PRetJ JNull
+  | IBroken msg => PRaise msg
+  end.
+
+(* extra parser modules made available by a test fixture; consulted before the shipped ones *)
+Record fixtures := {
+  fx_ud : text -> option (import_outcome (N -> N -> bytes -> plugin_result));
+  fx_src : text -> option (import_outcome (text -> list text -> plugin_result));
+  fx_co : text -> option (import_outcome (text -> plugin_result)) }.
+Definition no_fixtures : fixtures := {| fx_ud := fun _ => None; fx_src := fun _ => None; fx_co := fun _ => None |}.
+
+Definition shipped_env_fx (fx : fixtures) (ud_oe500 ud_m2c00 : N -> N -> bytes -> plugin_result)
+                          (src_oe500 : text -> list text -> plugin_result) : env :=
+  let src_lookup := fun m =>
+    match fx_src fx m with
+    | Some o => o
+    | None => if text_eqb m (L "srcparsers.oe500.oe500") then IFound src_oe500 else INotFound
+    end in
   {| comp_name := fun _ _ => None;
      ud_import := fun m =>
-       if text_eqb m (L "udparsers.oe500.oe500") then IFound ud_oe500
-       else if text_eqb m (L "udparsers.m2c00.m2c00") then IFound ud_m2c00
-       else INotFound;
+       match fx_ud fx m with
+       | Some o => o
+       | None =>
+           if text_eqb m (L "udparsers.oe500.oe500") then IFound ud_oe500
+           else if text_eqb m (L "udparsers.m2c00.m2c00") then IFound ud_m2c00
+           else INotFound
+       end;
      src_import := fun m =>
-       if text_eqb m (L "srcparsers.osrc.osrc") then IFound (osrc src_oe500) else INotFound;
+       if text_eqb m (L "srcparsers.osrc.osrc") then IFound (osrc src_lookup)
+       else match fx_src fx m with Some o => o | None => INotFound end;
      co_import := fun m =>
-       if text_eqb m (L "calloutparsers.ocallouts.ocallouts") then IFound ocallouts else INotFound |}.
+       match fx_co fx m with
+       | Some o => o
+       | None => if text_eqb m (L "calloutparsers.ocallouts.ocallouts") then IFound ocallouts else INotFound
+       end |}.
+
+Definition shipped_env := shipped_env_fx no_fixtures.
 
 (* the exception text of a failing shipped plugin is not modelled: the harness compares such error notes up to this marker *)
 Definition hw_plugin (r : hw_result) : plugin_result :=
   match r with HwOk j => PRetJ j | HwRaise => PRaise (L "@exc") | HwFuel => unsupported end.
 
 (* pel/hwdiags/data holds no chip data files in this repository: the chip-data environment is empty *)
-Definition env0 : env :=
-  shipped_env (fun sub ver d => hw_plugin (oe500_ud [] sub ver d)) (fun _ _ _ => unsupported)
-              (fun refcode words => hw_plugin (oe500_src [] refcode words)).
+Definition env_fx (fx : fixtures) : env :=
+  shipped_env_fx fx (fun sub ver d => hw_plugin (oe500_ud [] sub ver d)) (fun _ _ _ => unsupported)
+                 (fun refcode words => hw_plugin (oe500_src [] refcode words)).
+Definition env0 : env := env_fx no_fixtures.
+
+(* ---- fixture descriptions (as the harness sends them): kind, module name, behaviour, text ---- *)
+(* behaviours 8 / 9: fail (ImportError / ValueError) only when [trigger] holds for the call, otherwise echo the arguments *)
+Definition fx_result (behaviour : N) (payload : text) (echo : json) (trigger : bool) : plugin_result :=
+  if behaviour =? 8 then (if trigger then PRaiseImport payload else PRetJ echo)
+  else if behaviour =? 9 then (if trigger then PRaise payload else PRetJ echo)
+  else if behaviour =? 0 then PRetT payload
+  else if behaviour =? 1 then PNone
+  else if behaviour =? 2 then PRaise payload
+  else if behaviour =? 3 then PRaiseImport payload
+  else if behaviour =? 4 then PNonStr
+  else if behaviour =? 5 then PRetEmpty
+  else PRetJ echo.
+
+Definition fx_outcome {F} (behaviour : N) (payload : text) (f : F) : import_outcome F :=
+  if behaviour =? 6 then IBroken payload else IFound f.
+
+Definition fixtures_of (l : list (N * text * N * text)) : fixtures :=
+  let pick (kind : N) (m : text) := List.find (fun x => let '(k, n, _, _) := x in (k =? kind) && text_eqb n m) l in
+  {| fx_ud := fun m => match pick 0 m with
+                       | Some (_, _, b, p) => Some (fx_outcome b p (fun sub ver d =>
+                           fx_result b p (JObj [(L "fx_subtype", JNum (Z.of_N sub)); (L "fx_version", JNum (Z.of_N ver)); (L "fx_data", JStr (bytes_hex d))])
+                                     (match d with 255 :: _ => true | _ => false end)))
+                       | None => None end;
+     fx_src := fun m => match pick 1 m with
+                        | Some (_, _, b, p) => Some (fx_outcome b p (fun refcode words =>
+                            fx_result b p (JObj [(L "fx_refcode", JStr refcode); (L "fx_words", jstrs words)])
+                                      (text_eqb (nth 0 words []) (L "FFFFFFFF"))))
+                        | None => None end;
+     fx_co := fun m => match pick 2 m with
+                       | Some (_, _, b, p) => Some (fx_outcome b p (fun proc => fx_result b p (JStr proc) (prefixb (L "FAIL") proc)))
+                       | None => None end |}.
